@@ -975,7 +975,7 @@ def _readUrl(  # noqa: C901
                     # at least in GAE
                     decodedCssText = content.decode(encoding if encoding else 'utf-8')
 
-            except UnicodeDecodeError as e:
+            except (UnicodeDecodeError, LookupError) as e:
                 log.warn(e, neverraise=True)
                 decodedCssText = None
 
